@@ -930,38 +930,85 @@ def oracle_history(hist, c_lines):
     return None
 
 
+def run_c_resilient(cbin, hists, max_restarts=60):
+    """Run the histories through the implementation driver.  Returns (per-history output lines or None
+    when the history was not run, list of (history index, stderr) for the histories in which the driver
+    stopped, seconds).  A crash / sanitizer abort costs only the history it happened in: the remaining
+    histories are run by a fresh process, so that they are judged on their own output."""
+    t0 = time.time()
+    outs = [None] * len(hists)
+    crashes = []
+    start = 0
+    restarts = 0
+    flush = False
+    while start < len(hists):
+        part = hists[start:]
+        text = "\n".join("\n".join(h) for h in part) + "\n"
+        rc, out, err = run_bin(cbin, text, flush=flush)
+        want = sum(len(h) for h in part)
+        if rc == 0 and len(out) == want:
+            pos = 0
+            for k, h in enumerate(part):
+                outs[start + k] = out[pos:pos + len(h)]
+                pos += len(h)
+            break
+        if not flush:
+            flush = True          # again, line buffered, to see how far it got
+            continue
+        pos = 0
+        k = 0
+        while k < len(part) and pos + len(part[k]) <= len(out):
+            outs[start + k] = out[pos:pos + len(part[k])]
+            pos += len(part[k])
+            k += 1
+        if k >= len(part):
+            break                 # everything was printed, the driver failed while exiting
+        outs[start + k] = out[pos:]            # the history in which the driver stopped: partial output
+        crashes.append((start + k, " ".join(err.split())[:300], rc))
+        start += k + 1
+        restarts += 1
+        if restarts >= max_restarts:
+            break                 # the rest stays None: not run, not judged
+    return outs, crashes, time.time() - t0
+
+
 def check_histories(ctx, cbin, mbin, hists, label, oracle=True, stats=None):
     """Run the histories through both drivers, diff, run the oracle.  Returns list of failing
-    (history, index, message, c_lines)."""
+    (history, index, message, c_lines, m_lines) and the flattened outputs."""
     text = "\n".join("\n".join(h) for h in hists) + "\n"
     t0 = time.time()
     rc_m, m_out, m_err = run_bin(mbin, text)
     t1 = time.time()
-    rc_c, c_out, c_err = run_bin(cbin, text)
-    t2 = time.time()
     if rc_m != 0:
         raise vlib.CheckError("model driver failed on %s: rc=%s %s" % (label, rc_m, m_err[-500:]))
+    c_outs, crashes, t_c = run_c_resilient(cbin, hists)
     nlines = sum(len(h) for h in hists)
     if stats is not None:
         stats["ops"] = stats.get("ops", 0) + nlines - len(hists)
         stats["t_model"] = stats.get("t_model", 0) + t1 - t0
-        stats["t_c"] = stats.get("t_c", 0) + t2 - t1
-    crashed = rc_c != 0 or len(c_out) != nlines
-    if crashed:
-        # get the output up to the crash line by line
-        rc_c, c_out, c_err = run_bin(cbin, text, flush=True)
+        stats["t_c"] = stats.get("t_c", 0) + t_c
     fails = []
-    diff_at = vlib.first_diff(c_out, m_out)
-    # walk the histories
     pos = 0
     n_diff_h = 0
-    for h in hists:
-        c_l = c_out[pos:pos + len(h)]
+    n_skipped = 0
+    first_diff = None
+    c_flat = []
+    for k, h in enumerate(hists):
         m_l = m_out[pos:pos + len(h)]
-        pos += len(h)
+        c_l = c_outs[k]
+        if c_l is None:
+            n_skipped += 1
+            c_flat.extend([""] * len(h))
+            pos += len(h)
+            continue
+        c_flat.extend(c_l + [""] * (len(h) - len(c_l)))
         differs = c_l != m_l
         if differs:
             n_diff_h += 1
+            if first_diff is None:
+                d = vlib.first_diff(c_l, m_l)
+                first_diff = pos + (d if d is not None else 0)
+        pos += len(h)
         if oracle and (differs or stats is None or stats.get("oracle_all", True)):
             r = oracle_history(h, c_l)
             if stats is not None:
@@ -970,13 +1017,16 @@ def check_histories(ctx, cbin, mbin, hists, label, oracle=True, stats=None):
                 fails.append((h, r[0], r[1], c_l, m_l))
         elif differs and not oracle:
             fails.append((h, vlib.first_diff(c_l, m_l), None, c_l, m_l))
-    if diff_at is not None or crashed:
+    if n_diff_h or crashes:
         what = "correspondence %s: implementation and model differ in %d of %d histories (first at line %s)" % (
-            label, n_diff_h, len(hists), diff_at)
-        if crashed:
-            what += "; the implementation driver stopped early (rc=%s): %s" % (rc_c, " ".join(c_err.split())[:300])
+            label, n_diff_h, len(hists), first_diff)
+        if crashes:
+            what += "; the implementation driver stopped in %d histories (first: history %d, rc=%s): %s" % (
+                len(crashes), crashes[0][0], crashes[0][2], crashes[0][1])
+        if n_skipped:
+            what += "; %d histories not run after %d restarts" % (n_skipped, len(crashes))
         ctx.tie_broken(what)
-    return fails, (c_out, m_out)
+    return fails, (c_flat, m_out)
 
 
 def shrink(ctx, cbin, hist, idx):
